@@ -31,9 +31,11 @@ abbrev Addr := Nat
 /-- fixed accounts -/
 def INC : Addr := 0
 def OWNER : Addr := 5
-def COLLECTOR : Addr := 6
-def HELPER : Addr := 7
-def PAIR : Addr := 8
+/-- the account of the hostile pool token of the helper's pair (an ordinary sender otherwise) -/
+def MALLORY : Addr := 6
+def COLLECTOR : Addr := 7
+def HELPER : Addr := 8
+def PAIR : Addr := 9
 
 /-- factory configuration + the kind of the LP asset. Assets: 0 = LP, 1, 2 native, 3, 4 cw20;
     5 … 9 are the same five NAMES in the WRONG KIND (`a + 5` is the look-alike of `a`): the native denom
@@ -808,11 +810,12 @@ def helperDeposit (c : Cfg) (s : St) (e : Env) (a0 a1 dur : Nat) : Res St := do
   let b ← applyMsgs c s.bal (allowOf c e.offers) [.pull u HELPER 3 a1]
   -- submessage to the pair with all the funds: helper -> pair
   let b ← attachFunds c b HELPER PAIR funds
-  -- pair: native asset must have been sent exactly; cw20 pulled from the helper (allowance = a1)
+  -- pair handler: native asset must have been sent exactly, the LP amount is computed and must not be zero;
+  -- then its messages: cw20 pulled from the helper (allowance = a1), LP handed to the helper
   guardErr (a0 = 0 || hasFunds funds 1 a0)
-  let b ← applyMsgs c b [(3, a1)] [.pull HELPER PAIR 3 a1]
   let lp ← cadd U128MAX a0 a1
   guardErr (decide (lp ≠ 0))
+  let b ← applyMsgs c b [(3, a1)] [.pull HELPER PAIR 3 a1]
   let b ← applyMsgs c b [] [.send PAIR HELPER 0 lp]
   -- reply: whole LP balance of the helper goes into the position of the depositor
   let lpAmt := aget b (HELPER, 0)
